@@ -20,8 +20,11 @@ BAD = 4999  # decoded tag of an internally inconsistent row
 
 
 # ------------------------------------------------------------------ tagged transitions
-def make_obs(kind, tags):
-    t = np.asarray(tags, dtype=np.float32)
+NXT = 0.125  # next_obs carries the same tag as obs but shifted by this amount, so obs and next_obs cannot be confused
+
+
+def make_obs(kind, tags, nxt=False):
+    t = np.asarray(tags, dtype=np.float32) + (NXT if nxt else 0.0)
     n = len(tags)
     if kind == "vector":
         return np.stack([t, t + 0.25, t + 0.5], axis=1)
@@ -40,11 +43,11 @@ def make_transition(kind, tags):
     n = len(tags)
     t = np.asarray(tags, dtype=np.float32)
     tr = Transition(obs=make_obs(kind, tags), action=t.copy(), reward=t.copy(),
-                    next_obs=make_obs(kind, tags), done=(t % 2).copy(), batch_size=[n])
+                    next_obs=make_obs(kind, tags, nxt=True), done=(t % 2).copy(), batch_size=[n])
     return tr.to_tensordict()
 
 
-def dec_uniform(x, offsets=None):
+def dec_uniform(x, offsets=None, shift=0.0):
     """rows -> tag (None for an all-zero row, BAD if inconsistent)"""
     x = np.asarray(x, dtype=np.float64).reshape(len(x), -1)
     out = []
@@ -52,30 +55,31 @@ def dec_uniform(x, offsets=None):
         if not np.any(r):
             out.append(None)
             continue
-        base = r[0]
-        exp = base + (np.asarray(offsets) if offsets is not None else 0.0)
+        base = r[0] - shift
+        exp = base + shift + (np.asarray(offsets) if offsets is not None else 0.0)
         ok = np.allclose(r, exp) and float(base).is_integer() and 0 < base < BAD
         out.append(int(base) if ok else BAD)
     return out
 
 
-def decode_obs(kind, o):
+def decode_obs(kind, o, nxt=False):
     """-> dict column name -> list of tags"""
+    sh = NXT if nxt else 0.0
     if kind == "vector":
-        return {"": dec_uniform(o, [0, 0.25, 0.5])}
+        return {"": dec_uniform(o, [0, 0.25, 0.5], sh)}
     if kind == "image" or kind == "scalar":
-        return {"": dec_uniform(o)}
+        return {"": dec_uniform(o, None, sh)}
     if kind == "dict":
-        return {".a": dec_uniform(o["a"]), ".b": dec_uniform(o["b"])}
+        return {".a": dec_uniform(o["a"], None, sh), ".b": dec_uniform(o["b"], None, sh)}
     if kind == "tuple":
-        return {".0": dec_uniform(o["tuple_obs_0"], [0, 0.5]), ".1": dec_uniform(o["tuple_obs_1"])}
+        return {".0": dec_uniform(o["tuple_obs_0"], [0, 0.5], sh), ".1": dec_uniform(o["tuple_obs_1"], None, sh)}
 
 
 def decode_rows(kind, td):
     """TensorDict with leading dim n -> {column: [tag|None]*n}"""
     cols = {}
     for f in ("obs", "next_obs"):
-        for k, v in decode_obs(kind, td[f]).items():
+        for k, v in decode_obs(kind, td[f], nxt=(f == "next_obs")).items():
             cols[f + k] = v
     cols["action"] = dec_uniform(td["action"])
     cols["reward"] = dec_uniform(td["reward"])
@@ -174,7 +178,7 @@ class C09(vlib.Driver):
                 else:
                     b = rng.randint(1, size)
                     ops.append(["sample", rng.sample(range(size), b)])
-            cases.append({"kind": "multi", "obs": okind, "cap": cap, "agents": nag, "ops": ops})
+            cases.append({"kind": "multi", "obs": okind, "cap": cap, "agents": nag, "ops": ops, "korder": i % 3})
         return cases
 
     # ---------- implementation
@@ -236,6 +240,18 @@ class C09(vlib.Driver):
             return np.array([[t, t, t] for t in tagf(0)], dtype=np.float32)
         return np.array(tagf(0), dtype=np.float32)
 
+    @staticmethod
+    def reorder(d, case, fi):
+        """the caller's dictionaries need not list the agents in agent_ids order: rotate/reverse per field"""
+        mode = case.get("korder", 0)
+        keys = list(d)
+        if mode == 1:
+            keys = keys[::-1]
+        elif mode == 2:
+            r = (fi + 1) % len(keys)
+            keys = keys[r:] + keys[:r]
+        return {k: d[k] for k in keys}
+
     def run_multi(self, case):
         cap, nag, okind = case["cap"], case["agents"], case["obs"]
         agents = [f"agent_{i}" for i in range(nag)]
@@ -273,7 +289,7 @@ class C09(vlib.Driver):
                             d[an] = self.ma_value(okind, f, lambda m: [tag(kk, fi, a, m) for kk in ks])
                             nm = 2 if (f in ("state", "next_state") and okind in ("dict", "tuple")) else 1
                             md.append([a, [[tag(kk, fi, a, m) for kk in ks] for m in range(nm)], nm > 1 or False])
-                        args.append(d); margs.append(md)
+                        args.append(self.reorder(d, case, fi)); margs.append(md)
                     rec["args"] = margs
                     buf.save_to_memory(*args, is_vectorised=True)
                 elif op[0] == "single":
@@ -293,7 +309,7 @@ class C09(vlib.Driver):
                             d[an] = v
                             nm = 2 if (f in ("state", "next_state") and okind in ("dict", "tuple")) else 1
                             md.append([a, [tag(kk, fi, a, m) for m in range(nm)], nm > 1])
-                        args.append(d); margs.append(md)
+                        args.append(self.reorder(d, case, fi)); margs.append(md)
                     rec["args"] = margs
                     buf.save_to_memory(*args, is_vectorised=False)
                 else:
@@ -489,6 +505,8 @@ class C09(vlib.Driver):
 
     def classify(self, case, obs):
         labs = [f"kind={case['kind']}", f"obs={case['obs']}", f"cap={case['cap'] if case['cap'] <= 8 else '>8'}"]
+        if case["kind"] == "multi":
+            labs.append(f"caller-dict-order={['agent_ids', 'reversed', 'rotated-per-field'][case.get('korder', 0)]}")
         for op in case["ops"]:
             labs.append(f"op={case['kind']}:{op[0]}")
         if self.nontrivial(case, obs):
